@@ -125,6 +125,22 @@ def explore(ctx):
         ctx.count(f'maximp={sc["cfg"]["maximp"]}:skipn={sc["cfg"]["skipn"]}:gate={"y" if sc.get("start_with_key") else "n"}')
         if cut:
             ctx.nontriv(repr((sc['files'], sc['passes'], sc['rules'], sc['cfg'], sc['sched'], sc.get('start_with_key'))))
+    # give-up when every candidate fails before a test is run (the transformation raises in the worker, the helper reports an error)
+    for opk in ('raise', 'err', 'inval'):
+        for g in (2, 5):
+            for nn in (1, 3):
+                sc = {'files': [('f0.c', 'abc')], 'rules': [([], 0)],
+                      'passes': [{'key': 1, 'ops': [(opk,)] * (g + nn + 15), 'aos': 0, 'maxt': None, 'newfix': None}],
+                      'cfg': {'N': nn, 'giveup': g, 'silent': True, 'no_cache': True, 'nogiveup': False, 'maximp': None, 'skipn': None, 'maxcrash': 10, 'also': None},
+                      'sched': [rnd.randint(0, 7) for _ in range(40)], 'max_scheduled': 3000}
+                o = driver.run_scenario(sc, ctx.tmp)
+                ctx.evaluations += 1
+                ctx.count('give-up:no-test-ever-run:' + opk)
+                if o.diverged:
+                    ctx.violation('give-up', f'a pass whose every candidate ends in {opk!r} did not finish', {'scenario': sc})
+                    continue
+                oracle(ctx, sc, o)
+                each.append((driver.coq_scenario(sc, o.perm), o.out, sc))
     # --start-with-pass through the whole reduction (CVise.reduce), with and without --skip-initial-passes: nothing runs
     # before the named pass
     for skip_initial in (False, True):
